@@ -12,12 +12,12 @@ def run(tier, seed, replay_rows=None):
     ck.assumptions = ["wall-clock clauses one-sided with 1 s slack (3 s on the return bound)",
                       "a leak is a goroutine still executing f1 code 120 ms after Do returned"]
     # MECHANISM_MCS: exhaustive model checking of the mechanism specifications behind the run-level clauses
-    for mod, cfg in (("RunPhases", "MC_RunPhases.cfg"), ("RunLifecycle", "MC_RunLifecycle.cfg"), ("RateRunner", "MC_RateRunner.cfg"), ("ContinuousPool", "MC_ContinuousPool.cfg"), ("ContinuousPool", "MC_ContinuousPool_precancel.cfg"), ("TriggerPool", "MC_TriggerPool_quick.cfg")):
+    for mod, cfg in (("RunPhases", "MC_RunPhases.cfg"), ("RunLifecycle", "MC_RunLifecycle.cfg"), ("RateRunner", "MC_RateRunner.cfg"), ("MC_ContinuousPool", "MC_ContinuousPool.cfg"), ("MC_ContinuousPool", "MC_ContinuousPool_precancel.cfg"), ("TriggerPool", "MC_TriggerPool_quick.cfg")):
         r = vlib.run_tlc(mod, cfg, workers=16, timeout=1800)
         vlib.require_tlc_ok(r, cfg)
         ck.add_tlc(cfg, r)
     for mod, cfg, inv in (("RunLifecycle", "Mut_RunLifecycle_StopNoWait.cfg", "NeverWedged"), ("RateRunner", "Mut_RateRunner_StopNoWait.cfg", "QuiescentAfterStop"),
-                          ("ContinuousPool", "Mut_ContinuousPool_precancel.cfg", "NothingOnADeadContext")):
+                          ("MC_ContinuousPool", "Mut_ContinuousPool_precancel.cfg", "NothingOnADeadContext")):
         r = vlib.run_tlc(mod, cfg, workers=8, timeout=600)
         if r.violated != inv:
             raise vlib.MachineryError("%s should violate %s on the spec: %s" % (cfg, inv, r.summary()))
